@@ -56,7 +56,9 @@ Proof.
 Defined.
 
 Definition nkind_eq_dec : forall a b : nkind, {a = b} + {a <> b}.
-Proof. decide equality. Defined.
+Proof.
+  decide equality. apply list_eq_dec. apply prod_eq_dec; [apply bool_dec|]. apply prod_eq_dec; apply Nat.eq_dec.
+Defined.
 
 Definition ekind_eq_dec : forall a b : ekind, {a = b} + {a <> b}.
 Proof.
